@@ -317,6 +317,56 @@ def load_known(pid):
 # evidence / replay / verdict
 # ----------------------------------------------------------------------------
 
+class SourceCoverage:
+    """line / branch coverage of the property's anchored source files during the correspondence run (coverage.py if it is
+    installed; silently absent otherwise).  Reported in the evidence so that a generator that stops reaching the code a
+    property is about shows up as a number, not as silence."""
+    def __init__(self, pid):
+        self.cov = None
+        self.files = []
+        if os.environ.get("VERIF_COVERAGE", "1") == "0":
+            return
+        try:
+            import coverage, emdfile
+            base = os.path.dirname(os.path.abspath(emdfile.__file__))
+            with open(os.path.join(VERIF, "properties.jsonl"), encoding="utf-8") as f:
+                for line in f:
+                    d = json.loads(line)
+                    if d["id"] == pid:
+                        for rel in d["anchors"]["files"]:
+                            rel = rel.split("src/emdfile/", 1)[-1]
+                            self.files.append(os.path.join(base, rel))
+            self.cov = coverage.Coverage(data_file=None, branch=True, include=self.files)
+        except Exception:
+            self.cov = None
+
+    def start(self):
+        if self.cov is not None:
+            try:
+                self.cov.start()
+            except Exception:
+                self.cov = None
+
+    def stop(self, run):
+        if self.cov is None:
+            return
+        try:
+            self.cov.stop()
+            out = {}
+            for path in self.files:
+                try:
+                    _, stmts, _, missing, _ = self.cov.analysis2(path)
+                except Exception:
+                    continue
+                an = self.cov._analyze(path)
+                nb = an.numbers
+                out[os.path.basename(path)] = {"statements": len(stmts), "executed": len(stmts) - len(missing),
+                                               "branches": nb.n_branches, "branches_taken": nb.n_branches - nb.n_missing_branches}
+            run.extra["source_coverage_of_anchored_files"] = out
+        except Exception as e:
+            run.notes.append(f"coverage measurement failed: {e}")
+
+
 class Run:
     """One invocation of a check: collects counts, writes evidence, prints the verdict lines."""
 
